@@ -1,2 +1,2 @@
-# a-large-wrong/N<2^31: B=3674698 L=2485933197 E=1 -> (N,I,A_large,A_small)=(677, 0, 3671984, 3671984)
-w 3674698 2485933197 1
+# a-large-wrong/N<2^31: B=2 L=4138514148 E=1 -> (N,I,A_large,A_small)=(2069257074, 0, 0, 2)
+w 2 4138514148 1
